@@ -7,14 +7,17 @@ root = '/verif/seeded/_benign'
 diffs = sorted(f for f in os.listdir(root) if f.endswith('.diff'))
 if len(sys.argv) > 1:
     diffs = [d for d in diffs if any(a in d for a in sys.argv[1:])]
+# BENIGN_PROPS=C01,C06: run only these checks and write RESULTS_partial.md (a re-run after a change
+# that touches only rules these properties own); the full table stays in RESULTS.md
+PROPS = os.environ.get("BENIGN_PROPS", "")
 def ev(d):
-    r = subprocess.run(['python3', '/verif/tools/refactor_eval.py', os.path.join(root, d)], capture_output=True, text=True)
+    r = subprocess.run(['python3', '/verif/tools/refactor_eval.py', os.path.join(root, d)] + ([PROPS] if PROPS else []), capture_output=True, text=True)
     try:
         return d, json.loads(r.stdout)
     except Exception:
         return d, {"error": (r.stdout + r.stderr)[-400:]}
 rows = []
-with cf.ThreadPoolExecutor(max_workers=3) as ex:
+with cf.ThreadPoolExecutor(max_workers=int(os.environ.get("BENIGN_WORKERS", "3"))) as ex:
     for d, res in ex.map(ev, diffs):
         alarms = res.get('alarms', {})
         summ = ''
@@ -26,7 +29,9 @@ with cf.ThreadPoolExecutor(max_workers=3) as ex:
                 pass
         rows.append((d, res.get('applies'), res.get('builds_and_tests_pass'), alarms, summ.replace('\n', ' ')[:160], res.get('error', '')))
         print(d, 'SILENT' if not alarms and not res.get('error') else 'ALARM %s %s' % (list(alarms.keys()), res.get('error', '')[:100]), flush=True)
-with open(os.path.join(root, 'RESULTS.md'), 'w') as f:
+with open(os.path.join(root, 'RESULTS_partial.md' if PROPS else 'RESULTS.md'), 'w') as f:
+    if PROPS:
+        f.write('Partial re-run: only the quick checks of %s, build only (suite results as in RESULTS.md).\n\n' % PROPS)
     f.write("# Behaviour-preserving changes (silence controls)\n\nRnn-refK: refactorings written by sub-agents that saw only the repository (extract helper, split function, switch <-> if chain, loop form, renames, named constants, hoisting, early returns); Xnn: mechanical renames of unexported helpers, fields and types. Each builds and passes the existing suite. All 20 quick checks are run against each in a scratch copy.\n\n| change | suite passes | checks that raise an alarm | what it does |\n|---|---|---|---|\n")
     for r in rows:
         f.write("| %s | %s | %s | %s |\n" % (r[0], 'yes' if r[2] else 'NO', ', '.join(sorted(r[3].keys())) or 'none', r[4].replace('|', '/')))
